@@ -15,12 +15,18 @@ open Jomini Jomini.BinDe
 /-- Both meanings are the SAME container traversal `valueOfG` (struct / map / sequence / option /
 unknown-field skipping, fields in document order, duplicates kept in order and reported as the
 same `duplicate` error, missing fields as the same `missing` error); they differ only in the
-meaning of a leaf, a key and a colour (`Sem`).  So the property reduces to leaf agreement. -/
+meaning of a leaf, a key and a colour (`Sem`).  So the property reduces to leaf agreement.
+(This theorem is true BY DEFINITION - its proof is `⟨rfl, rfl⟩`: it records the design decision that both references are
+instances of one traversal; the content is in the leaf theorems below, in `C10_nested_spec` - which needs the leaf
+agreement only on the (leaf, request) pairs the traversal meets - and in the byte-level theorems that tie the text
+reference to the text slice's parser and deserializer models.) -/
 theorem C10_same_traversal (c : Cfg) (ty : RootTy) (d : BDoc) :
     valueOfText c ty d = valueOfG (textSem c) ty d ∧ valueOfBin c ty d = valueOfG (binSem c) ty d :=
   ⟨rfl, rfl⟩
 
-/-- if the two formats agree on every leaf, key and colour, they agree on every document and type. -/
+/-- if the two formats agree on every leaf, key and colour, they agree on every document and type.  (A plain CONGRUENCE:
+equal `Sem`s give equal traversals.  It is never applicable to the real formats as a whole - they do differ on untyped
+and float leaves; the usable form is `C10_nested_spec`, pointwise on the pairs met.) -/
 theorem C10_leaf_agreement_suffices (S1 S2 : Sem) (hl : S1.leaf = S2.leaf) (hc : S1.color = S2.color)
     (hk : S1.key = S2.key) (ty : RootTy) (d : BDoc) : valueOfG S1 ty d = valueOfG S2 ty d := by
   cases S1; cases S2; simp_all
